@@ -20,5 +20,17 @@ claim("C05", "SSA dominance (sweep before select, throttle clock), embedded-SQL 
 claim("C06", "interval-domain path-condition extraction of the success/retry predicates; path enumeration of the decision function; kind-consistent reachability of Store calls",
       "The success and retry predicates' accept sets over (error kind, status code) equal the documented classes exactly; every path of the classification maps to the documented action, outcome and dead reason with attempt <= retry.max as the bound and records the attempt; each action kind reaches only its Store method with its delay/reason; compile-time retry guards dominate the stores. Not decided: numeric backoff window, the retry.max+1 send count over target behaviours.",
       STD_NOTE)
-for i in range(7, 21):
+claim("C07", "SSA value provenance (def-use through cells, phis, struct fields) from sources to sinks; embedded-SQL column/field table agreement; header strip-set extraction",
+      "Envelope.Payload is written only from io.ReadAll / a request-local buffer (ingress) or base64 DecodeString (publish) and every encode/copy/push-body site reads exactly Envelope.Payload with no transforming instruction; every INSERT/SELECT/RETURNING maps payload/headers/trace/id/route/target to the same envelope fields; the ingress header copier skips authorization/proxy-authorization/cookie, canonicalises and comma-joins. Not decided: byte-exactness of database/sql, drivers, encoding/json, base64, net/http; sizes around max_body.",
+      STD_NOTE)
+claim("C08", "SSA guard-edge dominance in the handler and verifiers; interval extraction of the forward-auth status table; provenance of the MAC input",
+      "Every enqueue is unreachable from each authenticator's reject edge and reachable only via accept/not-configured; HMAC acceptance is dominated by all documented guards, the MAC input is ts\\nmethod\\npath\\nsha256(body) and secrets are selected at the signed timestamp; forward-auth allows exactly 200..299, passes 401/403, else 503; basic auth needs a table hit and constant-time equality; hooks wired to runtimeState. Not decided: cryptography, header parsing, clock offsets, compile-time config rejection.",
+      STD_NOTE)
+claim("C09", "comparator normalisation of the tolerance and nonce-liveness tests; provenance/pointer-identity of the replay state across reload; lock regions",
+      "The nonce cache keeps an entry live on a closed bound wherever the tolerance test accepts on a closed bound, evicts only strictly after expiry, both tests use one clock reading and expiry = ts+tolerance; every installation of HMAC authenticators on the reload path first shares (not copies) the running authenticator's cache; lookup+insert in one critical section. Not decided: histories, tolerance changes across reloads, restarts.",
+      STD_NOTE)
+claim("C10", "finite-domain accept-set extraction of the channel predicate; within-iteration guard-edge dominance in the wired resolver functions; sibling agreement; boundary-character rule on partial matches",
+      "The functions wired into the ingress route hooks yield/consider a route only behind a ChannelType test with accept set ⊆ {\"\", inbound} and behind the true edge of every matcher (all MatchConfig fields read, sibling applies the same minus methods); without a route no Store call is reachable and the answer is 404/405-with-Allow; wildcard-host and path-prefix matches carry the label/segment boundary. Not decided: full string semantics of host/path/IP matching, first-match order over all configurations.",
+      STD_NOTE)
+for i in range(11, 21):
     PENDING["C%02d" % i] = "rule set not implemented yet in this round (see DESIGN.md §3 for the planned rules)"
